@@ -271,9 +271,15 @@ class Run:
     def prove(self, propfile=None, extra_targets=()):
         """Build props/<P>.vo; count obligations; Print Assumptions; hygiene."""
         propfile = propfile or "props/%s.v" % self.prop
-        ok = self.build([propfile + "o"] + list(extra_targets))
+        # props/<P>_thorough.v: theorems whose proofs are too slow to re-check on every change (long
+        # sequential chains of symbolic executions); obligations of the thorough tier only
+        deep = "props/%s_thorough.v" % self.prop
+        deep = deep if (self.thorough and os.path.exists(os.path.join(COQ, deep))) else None
+        ok = self.build([propfile + "o"] + ([deep + "o"] if deep else []) + list(extra_targets))
         self.proof_ok = ok
         files = self.cone(propfile)
+        if deep:
+            files = sorted(set(files) | set(self.cone(deep)))
         decl = re.compile(r"^\s*(?:Local\s+|Global\s+|#\[[^\]]*\]\s*)*(Theorem|Lemma|Corollary|Example|Fact|Proposition|Remark)\s+([A-Za-z0-9_']+)", re.M)
         obligations, discharged, hygiene = 0, 0, []
         for vf in files:
@@ -297,20 +303,23 @@ class Run:
             self.proof_log += "\nforbidden constructs: %s" % hygiene
         # theorems of the property file + their assumptions
         thms = []
-        ppath = os.path.join(COQ, propfile)
-        if os.path.exists(ppath):
-            with open(ppath) as f:
-                thms = [m[1] for m in decl.findall(f.read())]
+        for pf in [propfile] + ([deep] if deep else []):
+            ppath = os.path.join(COQ, pf)
+            if os.path.exists(ppath):
+                with open(ppath) as f:
+                    thms += [m[1] for m in decl.findall(f.read())]
         self.cov["theorems"] = thms
         if ok and thms:
             modname = "NX." + propfile[:-2].replace("/", ".")
             tmp = os.path.join(COQ, "props", "Assum_%s.v" % self.prop)
             with open(tmp, "w") as f:
                 f.write("From NX Require Import %s.\n" % propfile[:-2].split("/")[-1])
+                if deep:
+                    f.write("From NX Require Import %s.\n" % deep[:-2].split("/")[-1])
                 for t in thms:
                     f.write('Goal True. idtac "@@%s". Abort.\nPrint Assumptions %s.\n' % (t, t))
             with CoqLock():
-                p = subprocess.run(["timeout", "300", "coqc", "-Q", ".", "NX", tmp], cwd=COQ,
+                p = subprocess.run(["timeout", "900", "coqc", "-Q", ".", "NX", tmp], cwd=COQ,
                                    capture_output=True, text=True)
             for ext in ("", "o", "ok", "os"):
                 try:
